@@ -13,7 +13,7 @@ DEFAULT = dict(
     nb=(1, 3), p_parallel=0.2, maxh=[50, 50, 50, None, 2, 3, 4], p_timeout=0.0, p_forward=0.12, p_sync=0.2,
     nh=(1, 6), proglen=(0, 5), ntasks=(1, 2), tasklen=(1, 6), p_wild=0.15, p_raise=0.05, p_readbus=0.04,
     p_redispatch=0.03, p_multikey=0.05, wild_dispatch=False, p_waitidle=0.1, p_parent=0.03, p_wal=0.0,
-    p_stop=0.0, p_expect=0.0, p_cancelrl=0.0, p_notimeout=0.1, p_walfault=0.0, p_payload=0.0, p_cleanup=0.15,
+    p_stop=0.0, p_expect=0.0, p_cancelrl=0.0, p_notimeout=0.1, p_walfault=0.0, p_payload=0.0, p_cleanup=0.15, p_samenames=0.0,
 )
 
 PAYLOADS = [
@@ -130,6 +130,8 @@ def gen_core(rng, **over):
         sc['handlers'].append(h)
     for x in range(rng.randint(*o['ntasks'])):
         sc['tasks'].append(gen_task(rng, o, nb, x == 0))
+    if o['p_samenames'] and rng.random() < o['p_samenames']:
+        sc['same_names'] = True
     return sc
 
 
@@ -216,6 +218,44 @@ def gen_deep(rng, **_):
     if rng.random() < 0.5:
         other += [['sleep', rng.choice([1 / 64, 17 / 64])], ['dispatch', rng.randrange(n), rng.choice(order), 1]]
     sc['tasks'].append(other)
+    return sc
+
+
+def gen_sibling(rng, **_):
+    """an event with several serial handlers: an earlier one dispatches a child without awaiting it, a later one dispatches
+    and awaits its own child and thereby runs the sibling's child inline; the event's timeout fires while the first of that
+    child's handlers runs (later ones still pending)"""
+    n = rng.randint(1, 2)
+    sc = {'buses': [{'parallel': False, 'maxh': 50, 'wal': False} for _ in range(n)],
+          'types': {t: {'timeout': None} for t in 'ABCD'}, 'handlers': [], 'tasks': []}
+    sc['types']['A']['timeout'] = rng.choice([33 / 128, 65 / 128])
+    home = {t: rng.randrange(n) for t in 'ABCD'}
+    # first handler of A: fire-and-forget child D (optionally a second one)
+    p1 = [['dispatch', home['D'], 'D', 0]]
+    if rng.random() < 0.3:
+        p1.append(['dispatch', home['C'], 'C', 1])
+    sc['handlers'].append({'bus': home['A'], 'key': 'A', 'kind': rng.choice(['async', 'sync']), 'prog': p1})
+    if rng.random() < 0.3:
+        sc['handlers'].append({'bus': home['A'], 'key': 'A', 'kind': 'async', 'prog': [['sleep', 1 / 64]]})
+    # a later handler of A: dispatches its own child and awaits it
+    p2 = [['dispatch', home['B'], 'B', 0]]
+    if rng.random() < 0.3:
+        p2.append(['sleep', 1 / 64])
+    p2.append(['await', 0])
+    sc['handlers'].append({'bus': home['A'], 'key': 'A', 'kind': 'async', 'prog': p2})
+    if rng.random() < 0.4:
+        sc['handlers'].append({'bus': home['A'], 'key': 'A', 'kind': 'async', 'prog': []})
+    sc['handlers'].append({'bus': home['B'], 'key': 'B', 'kind': 'async', 'prog': [['sleep', rng.choice([0, 1 / 64])]]})
+    for j in range(rng.choice([2, 2, 3])):
+        d = rng.choice([3 / 8, 3 / 4]) if j == 0 else rng.choice([0, 1 / 64, 3 / 8])
+        sc['handlers'].append({'bus': home['D'], 'key': 'D', 'kind': 'async', 'prog': [['sleep', d]]})
+    sc['handlers'].append({'bus': home['C'], 'key': 'C', 'kind': 'async', 'prog': []})
+    main = [['dispatch', home['A'], 'A', 0], ['await', 0]]
+    if rng.random() < 0.4:
+        main.append(['waitidle', home['A']])
+    sc['tasks'].append(main)
+    if rng.random() < 0.4:
+        sc['tasks'].append([['sleep', rng.choice([1 / 64, 17 / 64, 35 / 64])], ['dispatch', rng.randrange(n), rng.choice('BCD'), 0]])
     return sc
 
 
